@@ -10,7 +10,7 @@ NAN = float('nan')
 
 small = st.integers(0, 7)
 seed_list = st.lists(st.integers(0, 7), min_size=0, max_size=8)
-vform = st.sampled_from(['scalar', 'list', 'array', 'tuple', 'list'])
+vform = st.sampled_from(['scalar', 'scalar', 'list', 'array', 'tuple', 'list'])
 
 
 @st.composite
@@ -88,7 +88,8 @@ OPS = {
     'subsample_pattern': _rec('subsample_pattern', by=small, picks=idx_list, vform=vform),
     'reorder': _rec('reorder', perm=seed_list, form=st.sampled_from(['list', 'array'])),
     'sort_by': _rec('sort_by', by=small, method=st.sampled_from(['alpha', 'alpha', 'list', 'array']),
-                    perm=seed_list, reindex=st.booleans()),
+                    perm=seed_list, reindex=st.booleans(),
+                    then=st.one_of(st.none(), st.none(), small)),
     'append': _rec('append', other=small),
     'concat': _rec('concat', others=st.lists(small, min_size=0, max_size=3),
                    form=st.sampled_from(['varargs', 'list', 'tuple']),
@@ -105,21 +106,55 @@ OPS = {
     'df': _rec('df'),
 }
 
-# structural and re-ordering ops are drawn more often than the plain conversions
-WEIGHTS = dict(getitem=2, iter=1, subset=2, subsample=2, subset_pattern=3, subsample_pattern=3,
-               reorder=3, sort_by=3, append=2, concat=4, from_partials=2, permute=2, copy=1,
-               dict=1, matrices=1, df=1)
-
-
-def op_record():
-    names = [n for n, w in WEIGHTS.items() for _ in range(w)]
-    return st.sampled_from(names).flatmap(lambda n: OPS[n])
+# weight profiles: structural and re-ordering ops are drawn more often than plain conversions
+PROFILES = {
+    'balanced': dict(getitem=2, iter=1, subset=2, subsample=2, subset_pattern=3,
+                     subsample_pattern=3, reorder=3, sort_by=3, append=2, concat=4,
+                     from_partials=2, permute=2, copy=1, dict=1, matrices=1, df=1, partials=2),
+    'ordering': dict(getitem=1, iter=1, subset=1, subsample=1, subset_pattern=2,
+                     subsample_pattern=2, reorder=5, sort_by=6, append=1, concat=5,
+                     from_partials=1, permute=4, copy=2, dict=1, matrices=1, df=2, partials=1),
+    'combining': dict(getitem=2, iter=1, subset=1, subsample=1, subset_pattern=3,
+                      subsample_pattern=1, reorder=3, sort_by=2, append=4, concat=6,
+                      from_partials=4, permute=1, copy=2, dict=1, matrices=1, df=1, partials=4),
+    'selecting': dict(getitem=4, iter=2, subset=4, subsample=4, subset_pattern=5,
+                      subsample_pattern=5, reorder=2, sort_by=2, append=1, concat=2,
+                      from_partials=1, permute=1, copy=1, dict=1, matrices=1, df=2, partials=1),
+}
 
 
 @st.composite
-def history_case(draw, max_ops, min_ops=1):
+def partials_macro(draw):
+    """two condition subsets of one object followed by from_partials of them
+    (three ordinary records; `src` counts from the newest object, the pool grows by one
+    per record)"""
+    k = draw(st.integers(0, 3))
+    m1, m2 = draw(st.integers(0, 62)), draw(st.integers(0, 62))
+    fp = draw(OPS['from_partials'])
+    fp['src'] = draw(st.sampled_from([0, 0, 1]))
+    fp['others'] = [0] + fp['others'][:1]
+    return [dict(op='subset_pattern', src=k, by=1, mask=m1, vform='list'),
+            dict(op='subset_pattern', src=k + 1, by=1, mask=m2, vform='array'),
+            fp]
+
+
+def op_records(profile):
+    """strategy for a *list* of 1 or 3 records"""
+    w = PROFILES[profile]
+    names = [n for n, k in w.items() for _ in range(k)]
+
+    def pick(n):
+        if n == 'partials':
+            return partials_macro()
+        return OPS[n].map(lambda r: [r])
+    return st.sampled_from(names).flatmap(pick)
+
+
+@st.composite
+def history_case(draw, max_ops, min_ops=1, profile='balanced'):
     fam = draw(family())
     # Hypothesis' list lengths lean towards min_size: draw the lower bound too
     lo = max(min_ops, draw(st.sampled_from([1, 3, 6, 10, 14])))
-    ops = draw(st.lists(op_record(), min_size=min(lo, max_ops), max_size=max_ops))
+    chunks = draw(st.lists(op_records(profile), min_size=min(lo, max_ops), max_size=max_ops))
+    ops = [r for c in chunks for r in c][:max_ops]
     return dict(fam=fam, ops=ops)
